@@ -291,6 +291,26 @@ def brute(rng, tier):
             hc = torch.stack([hp[v].mean(0) for _, v in sorted(hg.items())])
             if ho.shape != hc.shape or not torch.allclose(torch.sort(ho, 0).values, torch.sort(hc, 0).values, rtol=1e-12, atol=1e-3):
                 fails.append(dict(clause='voxel_filter_huge_grid', signature=f'd={hd}', n=int(hp.shape[0]), voxels_returned=int(ho.shape[0]), voxels_expected=len(hg)))
+        # reprojerr is ZERO for pixels produced by point2pixel - for every reduction, whether or not an input is tracked by autograd (a pose
+        # being optimised, points of a bundle adjustment), in both dtypes
+        if t % 4 == 0:
+            for cdt in (torch.float64, torch.float32):
+                cp = torch.randn(5, 3, dtype=cdt, generator=g) + torch.tensor([0.0, 0.0, 6.0], dtype=cdt)
+                Kc = torch.tensor([[500.0, 0, 320.0], [0, 480.0, 240.0], [0, 0, 1.0]], dtype=cdt); Xc = pp.randn_SE3(sigma=0.1, dtype=cdt)
+                px = pp.point2pixel(cp, Kc, Xc)
+                for red in ('none', 'norm', 'sum'):
+                    for track in ('plain', 'pose requires grad', 'points require grad', 'no_grad'):
+                        cpp = cp.clone().requires_grad_(track == 'points require grad'); Xcc = pp.SE3(Xc.tensor().clone().requires_grad_(track == 'pose requires grad'))
+                        try:
+                            if track == 'no_grad':
+                                with torch.no_grad(): e_ = pp.reprojerr(cpp, px, Kc, Xcc, reduction=red)
+                            else:
+                                e_ = pp.reprojerr(cpp, px, Kc, Xcc, reduction=red)
+                        except Exception as ex:
+                            fails.append(dict(clause='reprojerr_raises', signature=f'{red}/{track}', error=f'{type(ex).__name__}: {ex}'[:100])); continue
+                        evals += 1
+                        if float(e_.detach().abs().max()) > 64 * torch.finfo(cdt).eps * 640:
+                            fails.append(dict(clause='reprojerr_zero_for_projected_pixels', signature=f'{red}/{track}/{str(cdt).split(".")[-1]}', err=float(e_.detach().abs().max())))
         # random_filter
         num = rng.randrange(0, n + 1)
         rf = pp.random_filter(pts, num)
